@@ -48,6 +48,9 @@ IsPcancel(p) == p.variant \in {"press-pcancel", "release-pcancel"}
 \* every one-shot key carries its own timeout (oskeys[i].T); the timeout in force is the one of the most recently
 \* pressed one-shot key ("one-shot keys tapped in a row combine and restart the timeout"); p.T is the largest of them
 KeyT(p, i) == p.oskeys[i].T
+\* lagq is an upper bound on the number of inputs kanata has not processed yet; it saturates at LagCap (>= every timeout,
+\* so no sharp claim is made there) and a saturated count is only trusted again when kanata reports idle (queue empty)
+LagCap(p) == p.T + 2
 
 MonInit(p) ==
   [p |-> p,
@@ -76,7 +79,7 @@ MonIn(m, r) ==
   ELSE
     LET p == m.p
         i == OsIdx(p, r.c)
-        m0 == [m EXCEPT !.quiet = 0, !.gapIn = @ + 1, !.lagq = OMin(@ + 1, m.p.T + 2)]
+        m0 == [m EXCEPT !.quiet = 0, !.gapIn = @ + 1, !.lagq = OMin(@ + 1, LagCap(m.p))]
         inSync == m.gapIn = 0
     IN IF i # 0
        THEN IF r.e = "d"
@@ -102,7 +105,7 @@ MonIn(m, r) ==
                  ELSE [m0 EXCEPT !.held = @ \cup {i}, !.plain = @ \cup {i}, !.curT = KeyT(p, i),
                                  !.rel = 0 - m.lagq,
                                  !.rsharp = IF over THEN m.lastIdle /\ m.quiet > p.red /\ m.pend = <<>> /\ m.lagq = 0
-                                            ELSE m.rsharp,
+                                            ELSE m.rsharp /\ m.lagq < LagCap(p),
                                  !.chain = IF over THEN {i} ELSE @ \cup {i},
                                  !.sure = IF over \/ ~surelyExt THEN {i} ELSE @ \cup {i},
                                  \* keys pressed since the activation began stay "after the activation" when a further
@@ -184,7 +187,7 @@ MonTick(m, out, idle, cb) ==
         stable == idle /\ m.lastIdle /\ m.gapIn = 0 /\ m.held = {}
         expired == T >= 1 + m.curT /\ m.held = {} /\ sharpNow
     IN [m2 EXCEPT !.el = OMin(T, p.T + 2), !.gapIn = 0, !.lastIdle = idle,
-                  !.rel = OMin(m.rel + 1, p.T + 2), !.lagq = IF m.lagq > 0 THEN m.lagq - 1 ELSE 0,
+                  !.rel = OMin(m.rel + 1, p.T + 2), !.lagq = IF idle THEN 0 ELSE IF m.lagq >= LagCap(p) THEN LagCap(p) ELSE IF m.lagq > 0 THEN m.lagq - 1 ELSE 0,
                   !.rsharp = m2.rsharp /\ ~expired /\ ~stable,
                   !.ended = IF expired \/ stable THEN "yes" ELSE m2.ended,
                   !.chain = IF expired \/ stable THEN {} ELSE m2.chain,
